@@ -1,5 +1,6 @@
 import MW.Staking.Exec
 import MW.Lemmas
+import MW.Staking.Interface
 /-!
 # C04 — Exchange-rate fairness: floor rounding, no dilution, no rounding profit
 
@@ -122,5 +123,15 @@ theorem roundtrip_no_profit (N L a m : Nat) (h : computeMint N L a = .ok m) :
 /-- non-vacuity: concrete totals on which the guards are met and rounding is strict -/
 example : computeMint 2000 1000 1001 = .ok 500 ∧ (2000 + 1001) * 500 / (1000 + 500) ≤ 1001 := ⟨rfl, by decide⟩
 example : computeUnbond 3001 1500 500 = .ok 1000 := rfl
+
+/-- the statements of this file quantify over every message the staking contract accepts: the `ExecuteMsg` the source
+declares (table regenerated from /repo's `msg.rs` on every run) has exactly the variants, fields and types of the
+model's `ExecMsg`, and the contract exports exactly the modelled entry points.  A message or entry point added to the
+source — which no generated history would exercise — breaks this theorem -/
+theorem messages_are_the_modelled_ones :
+    MW.Generated.Interface.staking_execute = MW.Interface.model_staking_execute
+    ∧ (∀ m : MW.Staking.ExecMsg, MW.Interface.execTag m ∈ MW.Interface.names MW.Generated.Interface.staking_execute)
+    ∧ MW.Generated.Interface.staking_entry_points = ["execute", "instantiate", "migrate", "query", "reply", "sudo"] :=
+  ⟨MW.Interface.staking_execute_eq, MW.Interface.staking_execute_covered.2, MW.Interface.staking_entry_points_eq⟩
 
 end MW.Props.C04
